@@ -399,7 +399,16 @@ async fn run_case<const N: usize>(d: &mut Driver<N>, ops: &[Op], fault: Option<F
                 d.model = backup;
                 match op {
                     Op::Del { k, .. } => {
-                        d.tainted.insert(*k);
+                        // a delete that returned Err has marked nothing: the marker for the active blob is appended
+                        // first and is the only step that can fail the call, so the key stays under comparison
+                        // ("an operation that returned an error is never served later"). A delete that returned Ok
+                        // with fewer blobs marked than the model expects (a failed append to a closed blob is
+                        // swallowed) is applied partially: that key leaves the comparison
+                        if m.class != Class::DataOp {
+                            d.tainted.insert(*k);
+                            // the markers that were written stay in the model's view of the other blobs: re-apply
+                            // nothing, the key is excluded from now on
+                        }
                     }
                     Op::Put { .. } => {}
                     Op::Restart { lazy, .. } => {
